@@ -110,16 +110,24 @@ def run(ck):
     eng.model(r'na::base::norm::<impl .*>::norm$', norm_log, front=True)
     res = eng.call_body(st, frame_fn(eng, 'frame'), [pt(x) for x in A] + [pt(x) for x in Bp]); ck.states += len(res)
     dcase = lambda m: dict(clause='mismatch', a=[model_float(m, x) for g in A for x in g], b=[model_float(m, x) for g in Bp for x in g])
-    if len(norms) >= 6:
-        da, db = [n.v for _, n in norms[:3]], [n.v for _, n in norms[3:6]]
+    def dist_of(P, i, j):
+        """the code's own norm of P_i - P_j if it computed one, else an independent root symbol (then nothing in the path constrains it)"""
+        for v, r in norms:
+            if all(z3.is_true(z3.simplify(v.d[k].v == P[i][k] - P[j][k])) for k in range(3)) or all(z3.is_true(z3.simplify(v.d[k].v == P[j][k] - P[i][k])) for k in range(3)): return r.v
+        return eng.trig.sqrt(sum((P[i][k] - P[j][k]) * (P[i][k] - P[j][k]) for k in range(3)))
+    if True:
+        pairs_ = [(0, 1), (0, 2), (1, 2)]
+        da = [dist_of(A, i, j) for i, j in pairs_]; db = [dist_of(Bp, i, j) for i, j in pairs_]
         mism = z3.Or([z3.Or(da[i] - db[i] >= RV('5000001/1000000000'), db[i] - da[i] >= RV('5000001/1000000000')) for i in range(3)])      # more than 5 mm (5.000001 mm: the f64 literal 0.005 is slightly above 5/1000)
         for s, o in res:
             err = None
             if isinstance(o, Enum) and not isz(o.disc) and o.disc == 1:
                 err = eng.deref(s, o.items[0]); err = err.items[0] if isinstance(err, BoxV) else err
             if not (err is not None and 'NotIsometry' in (getattr(err, 'tag', '') or '')):
-                ck.decide('Frame::frame: a pair distance off by >= 5 mm is rejected as NotIsometry', eng, list(s.pc) + [mism], z3.BoolVal(True), dcase, abstract=True)
-    else: ck.inconclusive.append('distances_match: fewer than six norm evaluations found')
+                for pi_ in range(3):
+                    one_pair = z3.Or(da[pi_] - db[pi_] >= RV('5000001/1000000000'), db[pi_] - da[pi_] >= RV('5000001/1000000000'))
+                    ck.decide(f'Frame::frame: pair {pairs_[pi_]} distance off by more than 5 mm is rejected as NotIsometry', eng, list(s.pc) + [one_pair], z3.BoolVal(True), dcase, abstract=True,
+                              nomodel_case=lambda: dict(clause='mismatch_search'))
     # ---------------- Frame::translation ----------------
     eng = ck.engine(); st = eng.new_state()
     p = [z3.Real(f'p{i}') for i in range(3)]; q = [z3.Real(f'q{i}') for i in range(3)]
